@@ -17,6 +17,7 @@ SPEC = {
             "constructor case = (instance, one of the three named degenerate arguments [chunk length 0, 0 or 1 aggregators, Sum bound >= 2^63], otherwise admissible parameters); "
             "structured case = one honest report, then every element of the leader share and of one prep share changed by an element whose Montgomery form is zero outside one bit window, for every window. "
             "concurrent rounds (both tiers, also as a -race binary): 20 goroutines behind a barrier, 12 with their own instance (all five types, different parameters) and 8 sharing three objects under a lock, each running whole pipelines (honest, altered proof element, altered nonce); every message, decision and aggregate must equal the sequential run with the same inputs. "
+            "codec points (both tiers): in every element-carrying message type of every instance the first / middle / last element set to 0, 1, 2, p-2, p-1 (must decode, re-marshal identically and be usable in the next step) and to p, p+1, 2^n-1, all-0xFF (must be refused). "
             "overflow points (both tiers): SumVec with 63/64-bit entries, every position in turn driven past 2^64 (error expected) and to exactly 2^64-1 (exact value expected). "
             "deterministic points (both tiers): one honest report per instance with 127/128/129/200/255 aggregators and RAND_SIZE = 32*SHARES (x2 with joint randomness); one honest report with 2 aggregators at the smallest value of every parameter (incl. the zero-bit instances), at every Sum bit width 1..63 and at 2^j-1 and 2^j gadget calls for j = 1..11 (NTT sizes up to 2^13) for SumVec, Histogram and MultihotCountVec. "
             "white-box case = (instance parameters, valid encoded measurement, 0 or 1 invalidating edit, 1/2/3/16 shares) proved, shared, queried and decided directly on the FLP. "
